@@ -360,8 +360,13 @@ class ModelCacheMixin:
 
             return min(cached, key=signed_key if signed else lambda v: v)
 
+        # as for eval: the models found on the way are only kept for the variables this solver knows from its
+        # constraints, so the optimum is among the cached models only if e has no other variable.  (Asked before the
+        # search: the layers below may add a helper constraint about e, and with it e's variables, once they have
+        # the answer.)
+        models_cover_e = self.variables.issuperset(e.variables)
         m = super().min(e, extra_constraints=extra_constraints, signed=signed, exact=exact)
-        if len(extra_constraints) == 0:
+        if len(extra_constraints) == 0 and models_cover_e:
             (self._min_signed_exhausted if signed else self._min_exhausted)[e.hash()] = e
         return m
 
@@ -380,8 +385,9 @@ class ModelCacheMixin:
 
             return max(cached, key=signed_key if signed else lambda v: v)
 
+        models_cover_e = self.variables.issuperset(e.variables)
         m = super().max(e, extra_constraints=extra_constraints, signed=signed, exact=exact)
-        if len(extra_constraints) == 0:
+        if len(extra_constraints) == 0 and models_cover_e:
             (self._max_signed_exhausted if signed else self._max_exhausted)[e.hash()] = e
         return m
 
